@@ -19,7 +19,7 @@ class C09(Prop):
             "inner_iterations counts PrintPreallocated calls. non-trivial = (tree, fmt, n) with |n-(L+1)| <= 8, counted in C "
             "(distinct by construction per tree: each n is visited once); distinct trees by hash")
     ASSUMPTIONS = ["writes beyond the canary zone in front of the buffer would only be seen by ASan on the heap placement"]
-    REQUIRED_CLASSES = ["formatted_nested", "string_with_escapes", "number_17_digits"]
+    REQUIRED_CLASSES = ["formatted_nested", "string_with_escapes", "number_17_digits", "depth>=10"]
 
     def budget(self, tier):
         return {"workers": 12, "examples": 700 if tier == "quick" else 20000}
@@ -29,7 +29,9 @@ class C09(Prop):
         strings = st.one_of(gens.byte_strings(12), gens.escapey_strings(), gens.invalid_utf8_strings())
         leaves = gens.scalars_built(strings=strings, numbers=numbers)
         keys = st.one_of(gens.byte_strings(5), gens.ascii_keys(3), gens.escapey_strings(4))
-        tree = st.one_of(gens.shaped_documents(leaves, keys, max_leaves=10, min_leaves=2),
+        deep = st.tuples(st.sampled_from(["[", "{", "[{", "{[", "{{["]), st.sampled_from([8, 9, 10, 11, 12, 16, 17, 18, 24, 33]), leaves).map(
+            lambda t: model.expand(["D", t[0], t[1], t[2]]))
+        tree = st.one_of(deep, gens.shaped_documents(leaves, keys, max_leaves=10, min_leaves=2),
                          gens.shaped_documents(leaves, keys, max_leaves=4),
                          leaves,
                          st.lists(leaves, min_size=20, max_size=60).map(lambda l: ["A", l]))
@@ -42,6 +44,8 @@ class C09(Prop):
             depth = model.depth_of(jv)
             if depth >= 2:
                 stats.cls("formatted_nested")
+            if depth >= 10:
+                stats.cls("depth>=10")
             for n in model.walk_jv(jv):
                 if n[0] == "S" and any(c < 0x20 or c in (0x22, 0x5C) for c in n[1]):
                     stats.cls("string_with_escapes")
